@@ -250,6 +250,25 @@ func (w *World) sweepsFor(prop string, cfg *RunCfg) []workItem {
 			}
 			items = append(items, workItem{fn: fn, why: "redactable conversion sweep", opts: VerifyOpts{Props: map[string]bool{"C06": true}, Safety: false, ExtraRequires: ifaceParamsNonNil, OnlyKinds: map[string]bool{"redactable": true}}})
 		}
+	case "C04", "C01":
+		// no drift on re-encoding: the functions on the encoding path (EncodeError and what it calls,
+		// every SafeDetails method, the registered encoders, Fill) must leave the error they look at
+		// unchanged - the same ownership obligations as the C18 sweep, for that subset
+		for _, fn := range w.frameSweepFuncs() {
+			root := fn
+			for root.Parent() != nil {
+				root = root.Parent()
+			}
+			n := root.Name()
+			if !(strings.HasPrefix(n, "encode") || strings.HasPrefix(n, "Encode") || n == "SafeDetails" || n == "Fill" || n == "GetSafeDetails" || n == "getTypeDetails" || n == "extractPrefix" || n == "getDetails") {
+				continue
+			}
+			items = append(items, workItem{fn: fn, why: "read-only frame sweep (encoding path)", opts: VerifyOpts{
+				Props: map[string]bool{prop: true}, Safety: false, Frame: true,
+				OnlyKinds:     map[string]bool{"frame": true},
+				ExtraRequires: ifaceParamsNonNil,
+			}})
+		}
 	case "C18":
 		// frame sweep: every function of the module's non-test packages is executed symbolically
 		// and every heap store / map update / global store / pointer argument handed to a module
